@@ -161,5 +161,63 @@ theorem handleLog_keeps {env : Env} {ts : Addr} {s : State} (l : Log) (hI : RegI
       simp [this, hr]
 
 
+/-! ## helpers of the monitor-link theorems -/
+
+/-- counters through the events of a receipt: a record found afterwards has the counters the id had before, zero if the id is new -/
+theorem processEvents_counters {env : Env} {ts : Addr} {s : State} (logs : List Log) (hI : RegInv s) (n : Nat) {r : CSR}
+    (hr : (processEvents env ts s logs).getCSR n = some r) :
+    r.txs = ((s.getCSR n).map (·.txs)).getD 0 ∧ r.revenue = ((s.getCSR n).map (·.revenue)).getD 0 := by
+  have key := processEvents_induct (P := fun s' => RegInv s' ∧ ((s.getCSR n).isSome → (s'.getCSR n).isSome) ∧
+      ∀ r, s'.getCSR n = some r →
+        r.txs = ((s.getCSR n).map (·.txs)).getD 0 ∧ r.revenue = ((s.getCSR n).map (·.revenue)).getD 0) env ts
+    (by
+      intro s1 l ⟨hI1, hsome, hcnt⟩
+      refine ⟨handleLog_regInv env ts s1 l hI1, ?_, ?_⟩
+      · intro h0
+        have h1 := hsome h0
+        cases hq : s1.getCSR n with
+        | none => rw [hq] at h1; cases h1
+        | some q =>
+          obtain ⟨q', hq', _⟩ := handleLog_keeps (env := env) (ts := ts) l hI1 hq
+          rw [hq']; rfl
+      · have hc := handleLog_cases env ts s1 l
+        generalize handleLog env ts s1 l = res at hc ⊢
+        cases hc with
+        | skip k => exact hcnt
+        | register c tid hem htop hpay hfree hid =>
+          intro r hr
+          rw [getCSR_setCSR] at hr
+          split at hr
+          · rename_i hn
+            injection hr with hr; subst hr
+            have hnone : s.getCSR n = none := by
+              cases h0 : s.getCSR n with
+              | none => rfl
+              | some q =>
+                have := hsome (by rw [h0]; rfl)
+                rw [hn, hid] at this; cases this
+            rw [hnone]; exact ⟨rfl, rfl⟩
+          · exact hcnt r hr
+        | assign c tid r0 hem htop hpay hfree hid =>
+          intro r hr
+          rw [getCSR_setCSR] at hr
+          obtain ⟨hrid, _⟩ := hI1.wf _ r0 hid
+          split at hr
+          · rename_i hn
+            injection hr with hr; subst hr
+            have := hcnt r0 (by rw [hn, hrid]; exact hid)
+            exact this
+          · exact hcnt r hr)
+    logs s ⟨hI, id, fun r hr => by rw [hr]; exact ⟨rfl, rfl⟩⟩
+  exact key.2.2 r hr
+
+theorem AMap.eqv_refl {K : Type} [DecidableEq K] (a : AMap K) : a.eqv a = true := by
+  simp [AMap.eqv]
+
+theorem sameBank_refl (s : State) : sameBank s s = true := by simp [sameBank]
+theorem sameState_refl (s : State) : sameState s s = true := by
+  simp [sameState, sameBank_refl, csrsEq, idxEq, AMap.eqv_refl]
+
+
 end Csr
 end CV
